@@ -539,11 +539,36 @@ def ioracle(ops, impl):
             elif st != "none":
                 report("C11:unrequested-status-entry", line, i)
             creds.append({"issuer": op["issuer"], "sl": bool(op.get("statuslist")), "revoked_by_issuer": False, "known": False})
+        elif kind == "iplant":
+            # a stored credential with two status entries of the node's own list (first one: other purpose / other type)
+            stats["plant:" + op.get("shape", "")] += 1
+            m = re.match(r"iplant ok k=(\d+) status=(\S+)$", line)
+            if not m:
+                report("C11:plant-failed", line[:200], i)
+                creds.append(None)
+                continue
+            ents = m.group(2).split(",")
+            for e in ents:
+                mm = re.fullmatch(r"(\w+)/(\w+)#(.+)/(\d+)#(\d+)", e)
+                if not mm or mm.group(3) != op["issuer"]:
+                    report("C11:issued-credential-without-its-own-revocation-entry", line, i)
+                elif (mm.group(3), mm.group(4), mm.group(5)) in positions:
+                    report("C11:status-list-position-handed-out-twice", line, i)
+                else:
+                    positions.add((mm.group(3), mm.group(4), mm.group(5)))
+            has_rev = any(e.startswith("StatusList2021Entry/revocation#") for e in ents)
+            creds.append({"issuer": op["issuer"], "sl": True, "revoked_by_issuer": False, "known": False, "norev": not has_rev})
         elif kind == "irevoke":
             c = creds[op["k"]] if op["k"] < len(creds) else None
             if c is None:
                 continue
             stats["revoke"] += 1
+            if c.get("norev"):
+                # no StatusList2021Entry with purpose revocation: nothing may be revoked
+                stats["revoke-without-revocation-entry"] += 1
+                if line != "irevoke err:status-not-found":
+                    report("C11:issuer-revoked-through-an-entry-that-is-not-a-revocation-entry", f"{line}", i)
+                continue
             nuts = c["issuer"].startswith("did:nuts:")
             if c["revoked_by_issuer"]:
                 if line != "irevoke revoked":
